@@ -12,8 +12,8 @@ from checks._http_b import canon_value, is_token, to_bytes_utf8, sym_class, pars
 ID = "C24"
 LEVEL = "exploration"
 TECHNIQUE = "exhaustive enumeration of request descriptions + independent parser (h11 server role)"
-RULE = ("(method) every curated method plus G<c>T for every byte c in 0..255; (target) every curated target plus "
-        "/a<c>b for every byte c -- each both at construction and assigned after construction, written directly "
+RULE = ("(method) every curated method plus every byte c in 0..255 placed first, inside and last in GT; (target) every "
+        "curated target plus every byte c placed first, inside and last in /ab -- each both at construction and assigned after construction, written directly "
         "and through HTTP11ClientProtocol.request; (valid product) valid methods x valid targets x body kinds; "
         "(headers) every header set of the hostile list x body kinds; (body) every piece list (1-3 pieces, empty "
         "pieces, 10/17-byte pieces, chunk look-alikes) x known/unknown length x every count of pieces written "
@@ -29,8 +29,8 @@ ASSUMPTIONS = [
     "a known-length producer writes exactly its declared length; header values carry no NUL (see C20 for NUL)",
     "target bytes that are visible ASCII but not URI characters (\"<>\\^`{|}) may be refused or passed through",
 ]
-MIN = {"quick": {"evaluations": 3600, "nontrivial": 2500, "outcomes": 5},
-       "thorough": {"evaluations": 8000, "nontrivial": 5000, "outcomes": 6}}
+MIN = {"quick": {"evaluations": 7000, "nontrivial": 5000, "outcomes": 5},
+       "thorough": {"evaluations": 12800, "nontrivial": 10000, "outcomes": 5}}
 
 GREY_TARGET = frozenset(b"\"<>\\^`{|}")
 CLIENT_OWN = {b"connection", b"content-length", b"transfer-encoding"}
@@ -100,8 +100,12 @@ def all_cases(tier):
             seen.add(c)
             out.append(c)
 
-    methods = VALID_METHODS + INVALID_METHODS + [b"G" + bytes([c]) + b"T" for c in range(256)]
-    targets = VALID_TARGETS + INVALID_TARGETS + [b"/a" + bytes([c]) + b"b" for c in range(256)]
+    methods = VALID_METHODS + INVALID_METHODS
+    targets = VALID_TARGETS + INVALID_TARGETS
+    for c in range(256):        # every byte value first, inside and last (a trailing LF is the classic '$' slip)
+        ch = bytes([c])
+        methods += [ch + b"GT", b"G" + ch + b"T", b"GT" + ch]
+        targets += [ch + b"/ab", b"/a" + ch + b"b", b"/ab" + ch]
     if tier == "thorough":
         methods += [b"G" + a + b + b"T" for a in HOSTILE2 for b in HOSTILE2]
         targets += [b"/a" + a + b + b"b" for a in HOSTILE2 for b in HOSTILE2]
@@ -337,7 +341,7 @@ def context(case):
     eff_target = assign[1] if assign and assign[0] == "target" else target
     parts = []
     if not method_valid(eff_method):
-        parts.append("method(%s)" % _byte_class(eff_method))
+        parts.append("method(%s)" % _byte_class(eff_method).replace("grey", "delimiter"))
     if target_class(eff_target) != "valid":
         parts.append("target(%s)" % _byte_class(eff_target))
     if assign:
@@ -369,7 +373,7 @@ def _byte_class(b):
             out.add("grey")
         elif c not in b"!#$%&'*+-.^_`|~0123456789ABCDEFGHIJKLMNOPQRSTUVWXYZabcdefghijklmnopqrstuvwxyz":
             out.add("delimiter")
-    return "+".join(sorted(out)) or "token"
+    return "+".join(sorted(set(out))) or "token"
 
 
 def signature(case, fails):
